@@ -11,6 +11,7 @@ it - by transformations that are each semantics-preserving ON THEIR OWN:
   N5  t = E (t unknown to the reference, bound once, E pure, operands not modified)  ->  uses of t replaced by E
   N6  h(args) with h a new module-level helper that the reference module does not define  ->  h's body inlined (fresh names)
   N9  a, b = e1, e2           ->  a = e1 ; b = e2     (no target occurs on the right-hand side)
+  N10 loop body / function body ending in `if C: BODY` (no else)  ->  `if not C: continue` (`return`) ; BODY
   N3  t = E ; return t        ->  return E            (t assigned once, used once, adjacent statements)
       t = E ; T = t           ->  T = E               (same conditions; python evaluates the right-hand side first anyway)
   A1  consistent, injective renaming of local variables (alpha-conversion; parameters, globals and attribute names are never touched)
@@ -187,6 +188,41 @@ def _split_tuple_assigns(func):
                 i += 1
 
 
+def _negate(test):
+    if isinstance(test, ast.UnaryOp) and isinstance(test.op, ast.Not):
+        return test.operand
+    if isinstance(test, ast.Compare) and len(test.ops) == 1 and type(test.ops[0]) in NEG and \
+            not isinstance(test.ops[0], (ast.Lt, ast.LtE, ast.Gt, ast.GtE)):
+        # == / != / is / in have exact complements; the order comparisons do not for NaN, so they keep an explicit `not`
+        return ast.copy_location(ast.Compare(left=test.left, ops=[NEG[type(test.ops[0])]()], comparators=test.comparators), test)
+    return ast.copy_location(ast.UnaryOp(op=ast.Not(), operand=test), test)
+
+
+def _tail_if_to_guard(func):
+    """N10: a loop body (or the function body) that ENDS in `if C: BODY` without else becomes `if not C: continue` (`return`) followed by
+    BODY - the guard-clause form.  Applied repeatedly from the outside in, so nested tail-ifs become a sequence of guards."""
+    changed = True
+    while changed:
+        changed = False
+        for p in ast.walk(func):
+            if isinstance(p, (ast.For, ast.While)):
+                b, exit_ = p.body, ast.Continue
+            elif p is func:
+                b, exit_ = p.body, ast.Return
+            else:
+                continue
+            if not b:
+                continue
+            s = b[-1]
+            if isinstance(s, ast.If) and not s.orelse and len(s.body) >= 2 and not isinstance(s.body[-1], (ast.Return, ast.Raise, ast.Continue, ast.Break)):
+                if p is func and any(isinstance(n, ast.Return) and n.value is not None for n in ast.walk(func)):
+                    continue        # a function that returns values: an added bare return would change nothing, but keep its shape
+                g = ast.copy_location(ast.If(test=_negate(s.test), body=[ast.copy_location(exit_(), s)], orelse=[]), s)
+                b[-1:] = [g] + s.body
+                changed = True
+                break
+
+
 def normalise(func):
     _Normalise().visit(func)
     _split_tuple_assigns(func)
@@ -229,6 +265,7 @@ class Aligner:
         self.votes = {}
         self.idx_ctx = index_context_ids(cfunc)
         self.actions = []
+        self._tail = {}
 
     def vote(self, a, b):
         if a in self.cl and b in self.rl:
@@ -240,7 +277,40 @@ class Aligner:
     def rs(self, n):
         return shape(n, self.rl)
 
-    def stmts(self, cs, rs):
+    def variants(self, cs, kind):
+        """behaviour-preserving re-shapings of a loop body / function body: the tail `if C: BODY` as guard clause, and a guard clause
+        `if T: continue|return` (no else) followed by REST as `if not T: REST`"""
+        out = []
+        exit_ = ast.Continue if kind == "loop" else ast.Return
+        if cs and isinstance(cs[-1], ast.If) and not cs[-1].orelse and cs[-1].body and \
+                not isinstance(cs[-1].body[-1], (ast.Return, ast.Raise, ast.Continue, ast.Break)):
+            s = cs[-1]
+            g = ast.copy_location(ast.If(test=_negate(s.test), body=[ast.copy_location(exit_(), s)], orelse=[]), s)
+            out.append(("guard@%d" % s.lineno, cs[:-1] + [g] + list(s.body)))
+        for k, s in enumerate(cs[:-1]):
+            if isinstance(s, ast.If) and not s.orelse and len(s.body) == 1 and isinstance(s.body[0], exit_) and \
+                    (kind == "loop" or s.body[0].value is None):
+                rest = cs[k + 1:]
+                n = ast.copy_location(ast.If(test=_negate(s.test), body=rest, orelse=[]), s)
+                out.append(("nest@%d" % s.lineno, cs[:k] + [n]))
+        return out
+
+    def stmts(self, cs, rs, kind=None, owner=None):
+        if kind and owner is not None:
+            def ratio(v):
+                return difflib.SequenceMatcher(None, [shape(x, self.cl, shallow=True) for x in v],
+                                               [shape(x, self.rl, shallow=True) for x in rs], autojunk=False).ratio()
+            base = ratio(cs)
+            best = None
+            for label, v in self.variants(cs, kind):
+                r_ = ratio(v)
+                if r_ > base + 1e-9 and (best is None or r_ > best[0]):
+                    best = (r_, label, v)
+            if best is not None:
+                owner[:] = best[2]
+                cs = owner
+                self.actions.append(best[1])
+                return self.stmts(cs, rs, kind, owner)
         ck = [shape(s, self.cl, shallow=True) for s in cs]
         rk = [shape(s, self.rl, shallow=True) for s in rs]
         sm = difflib.SequenceMatcher(None, ck, rk, autojunk=False)
@@ -255,6 +325,8 @@ class Aligner:
                 pairs.append((cs[a + k], rs[b + k]))
             ci, ri = a + size, b + size
         for c, r in pairs:
+            if kind and cs and c is cs[-1] and isinstance(c, ast.If):
+                self._tail[id(c)] = kind      # falling out of an arm of the block's last `if` ends the iteration / the function as well
             self.node(c, r)
 
     def node(self, c, r):
@@ -295,7 +367,9 @@ class Aligner:
                 return
             if isinstance(vc, list) and isinstance(vr, list):
                 if vc and isinstance(vc[0], ast.stmt) or vr and isinstance(vr[0], ast.stmt):
-                    self.stmts([x for x in vc if isinstance(x, ast.stmt)], [x for x in vr if isinstance(x, ast.stmt)])
+                    kind = "loop" if isinstance(c, (ast.For, ast.While)) and fc == "body" else \
+                        (self._tail.get(id(c)) if isinstance(c, ast.If) and fc in ("body", "orelse") else None)
+                    self.stmts(vc, vr, kind, vc if kind else None)
                 elif len(vc) == len(vr):
                     for x, y in zip(vc, vr):
                         if isinstance(x, ast.AST) and isinstance(y, ast.AST):
@@ -378,7 +452,7 @@ def _written_names(func):
     return binds, pos
 
 
-def inline_extra_temps(cfunc, rfunc):
+def inline_extra_temps(cfunc, rfunc, mapped=()):
     """N5: `t = E` where t is a local that the reference does not have, t is bound once, E is a pure value expression whose operands are
     parameters or locals that are bound at most once and never stored through / mutated in place, and every use of t follows the
     definition: replace the uses by E and drop the definition.  -> list of inlined names"""
@@ -397,8 +471,10 @@ def inline_extra_temps(cfunc, rfunc):
                     if not (isinstance(s, ast.Assign) and len(s.targets) == 1 and isinstance(s.targets[0], ast.Name)):
                         continue
                     t = s.targets[0].id
-                    if t in rl or writes.get(t, 0) != 1 or not _pure_value(s.value):
+                    if t in rl or t in mapped or writes.get(t, 0) != 1 or not _pure_value(s.value):
                         continue
+                    if len(muts.get(t, [])) != 1:
+                        continue            # the object bound to t is stored through / mutated in place: its identity matters
                     ops = {x.id for x in ast.walk(s.value) if isinstance(x, ast.Name)}
                     if t in ops:
                         continue
@@ -456,12 +532,13 @@ def canonicalise_function(cfunc, rfunc):
     normalise(cfunc)
     rfunc = copy.deepcopy(rfunc)
     normalise(rfunc)
+    fk = None if any(isinstance(n, ast.Return) and n.value is not None for n in ast.walk(cfunc)) else "func"
     al = Aligner(cfunc, rfunc)
-    al.stmts(cfunc.body, rfunc.body)
+    al.stmts(cfunc.body, rfunc.body, fk, cfunc.body if fk else None)
     m = al.mapping()
     # locals without a counterpart in the reference that merely name a pure sub-expression are expanded again (N5)
     keep = set(m.values()) | {a for a in m}
-    inl = [t for t in inline_extra_temps(cfunc, rfunc)]
+    inl = [t for t in inline_extra_temps(cfunc, rfunc, mapped=set(m))]
     if inl:
         ast.fix_missing_locations(cfunc)
         al2 = Aligner(cfunc, rfunc)
@@ -515,6 +592,26 @@ def _single_tail_return(g):
     return None
 
 
+def _view_stable(e):
+    """a name, or subscripts / attributes over names with pure indices: evaluating it again yields the same object / view"""
+    if isinstance(e, ast.Name):
+        return True
+    if isinstance(e, ast.Constant):
+        return True
+    if isinstance(e, ast.Attribute):
+        return _view_stable(e.value)
+    if isinstance(e, ast.Subscript):
+        return _view_stable(e.value) and pure_index(e.slice) if not isinstance(e.slice, (ast.Slice, ast.Tuple)) else \
+            _view_stable(e.value) and all(pure_index(x) for x in ast.walk(e.slice) if isinstance(x, ast.expr) and not isinstance(x, (ast.Slice, ast.Tuple, ast.Load)))
+    if isinstance(e, (ast.BinOp, ast.UnaryOp)):
+        return pure_index(e)
+    return False
+
+
+def _same_expr(a, b):
+    return ast.dump(a) == ast.dump(b)
+
+
 def _has_return(stmts):
     return any(isinstance(n, ast.Return) for s in stmts for n in ast.walk(s))
 
@@ -555,10 +652,11 @@ def _convert_returns(stmts, mk):
     return out
 
 
-def inline_new_helpers(func, helpers, counter):
+def inline_new_helpers(func, helpers, counter, origin=None):
     """`t = h(args)` / `h(args)` / `return h(args)` with h a module-level function of the current module that the reference module does not
     define, h straight (one return, at the end), no recursion: the call statement is replaced by h's body with fresh local names.
     Evaluation order is preserved: arguments are bound first, in order, then the body runs, then the result is bound."""
+    origin = {} if origin is None else origin
     done = []
     for _ in range(8):
         hit = None
@@ -601,18 +699,29 @@ def inline_new_helpers(func, helpers, counter):
         ret2 = _single_tail_return(g2)
         names = locals_of(g2) | params_of(g2)
         target = s.targets[0].id if isinstance(s, ast.Assign) else None
-        ren = {n: n + sfx for n in names}
+        caller_names = {x.id for x in ast.walk(func) if isinstance(x, ast.Name)} | params_of(func)
+        reusable = origin.setdefault(g.name, set())
+        ren = {}
+        for n in names:
+            if n not in caller_names or n in reusable:
+                ren[n] = n                  # free in the caller, or left there by an earlier inline of this same helper (defined before use)
+                reusable.add(n)
+            else:
+                ren[n] = n + sfx
         argnames = {x.id for a_ in list(call.args) + [k.value for k in call.keywords] for x in ast.walk(a_) if isinstance(x, ast.Name)}
+        for n in list(ren):
+            if ren[n] == n and n in argnames and n in params_of(g2) and False:
+                ren[n] = n + sfx
         if target and isinstance(ret2, ast.Name) and ret2.id in names and target not in argnames - {target}:
             ren[ret2.id] = target        # the returned local takes the caller's name directly
         # a parameter that is never rebound and receives a plain name is that name (alias): no fresh symbol needed
         rebound = {x.id for x in ast.walk(g2) if isinstance(x, ast.Name) and isinstance(x.ctx, (ast.Store, ast.Del))}
         opn = [x.arg for x in g2.args.args]
         for k_, av in enumerate(call.args):
-            if isinstance(av, ast.Name) and k_ < len(opn) and opn[k_] not in rebound and ren.get(opn[k_]) == opn[k_] + sfx:
+            if isinstance(av, ast.Name) and k_ < len(opn) and opn[k_] not in rebound:
                 ren[opn[k_]] = av.id
         for kw in call.keywords:
-            if kw.arg in opn and isinstance(kw.value, ast.Name) and kw.arg not in rebound and ren.get(kw.arg) == kw.arg + sfx:
+            if kw.arg in opn and isinstance(kw.value, ast.Name) and kw.arg not in rebound:
                 ren[kw.arg] = kw.value.id
         _Rename(ren, set()).visit(g2)
         for x in ast.walk(g2):
@@ -620,6 +729,9 @@ def inline_new_helpers(func, helpers, counter):
                 x.arg = ren[x.arg]
         pnames = [x.arg for x in g2.args.args]
         binds = []
+        subst = {}
+        bound_in_body = {x.id for x in ast.walk(g2) if isinstance(x, ast.Name) and isinstance(x.ctx, (ast.Store, ast.Del))}
+        rebound_after = bound_in_body
         given = {}
         for k_, av in enumerate(call.args):
             given[pnames[k_]] = av
@@ -636,10 +748,29 @@ def inline_new_helpers(func, helpers, counter):
                 break
             if isinstance(v, ast.Name) and v.id == pn:
                 continue
+            if pn not in rebound_after and _view_stable(v):
+                base = v
+                while isinstance(base, (ast.Subscript, ast.Attribute)):
+                    base = base.value
+                others = [a_ for q, a_ in given.items() if q != pn]
+                shared = isinstance(base, ast.Name) and any(isinstance(x, ast.Name) and x.id == base.id for a_ in others
+                                                            for x in ast.walk(a_) if not _same_expr(a_, v))
+                idx_names = {x.id for x in ast.walk(v) if isinstance(x, ast.Name)} - ({base.id} if isinstance(base, ast.Name) else set())
+                if not shared and not (idx_names & bound_in_body):
+                    subst[pn] = v
+                    continue
             binds.append(ast.copy_location(ast.Assign(targets=[ast.Name(id=pn, ctx=ast.Store())], value=v, lineno=s.lineno), s))
         if not ok:
             helpers = {k_: v_ for k_, v_ in helpers.items() if k_ != g.name}
             continue
+        if subst:
+            class _SubP(ast.NodeTransformer):
+                def visit_Name(self, n):
+                    if n.id in subst and isinstance(n.ctx, ast.Load):
+                        return ast.copy_location(copy.deepcopy(subst[n.id]), n)
+                    return n
+            for k_ in range(len(g2.body)):
+                g2.body[k_] = _SubP().visit(g2.body[k_])
         body = [x for x in g2.body if not (isinstance(x, ast.Expr) and isinstance(x.value, ast.Constant))]
         structured = isinstance(ret, ast.Constant) and ret.value is Ellipsis
         if structured:
@@ -706,10 +837,11 @@ def canonicalise_module(short, tree):
         return True
     helpers = {n.name: n for n in tree.body if isinstance(n, ast.FunctionDef) and n.name not in ref and _plain(n)} if ref else {}
     counter = [0]
+    origin = {}
     for n in tree.body:
         if isinstance(n, ast.FunctionDef):
             if n.name in ref and helpers:
-                inl = inline_new_helpers(n, helpers, counter)
+                inl = inline_new_helpers(n, helpers, counter, {})
                 if inl:
                     log.setdefault(n.name, []).extend("inline-helper %s" % h for h in inl)
             if n.name in ref:
